@@ -25,7 +25,8 @@ RULE = (
 ASSUMPTIONS = ["docstrings are rendered by the harness, not by doctrans", "no positional-only parameters and no *args (quantifier text)"]
 CORE_ALLOWED = ()
 FRONTIER_KNOBS = ("partial_doc", "out_of_order", "kwarg_undocumented", "untyped_doc_entry", "name_default",
-                  "no_annotation_no_doctype", "untyped_with_default", "class_partial_kwarg", "inmemory_conflict", "inmemory_partial_kwarg")
+                  "no_annotation_no_doctype", "untyped_with_default", "class_partial_kwarg", "inmemory_conflict", "inmemory_partial_kwarg",
+                  "kwarg_other_name", "doc_states_default")
 FLOORS = {"inmemory": 0.1, "has_default": 0.3, "kind=method": 0.1, "kind=class_init": 0.1, "partial_doc_prefix": 0.05, "has_kwarg": 0.1}
 NAMES = domain.NAMES
 TYPES = ("int", "str", "float", "bool", "Optional[int]", "List[str]", "np.ndarray", "Literal['a', 'b']", "Union[int, float]")
@@ -130,9 +131,23 @@ def _case(draw, knob):
         kwarg, doc_kwarg = "kwargs", True
     elif inmemory and kwarg and doc_kwarg and len(documented) < len(allp):
         kwarg, doc_kwarg = None, False
-    return {"inmemory": inmemory, "kind": kind, "first": first, "args": args, "kwonly": kwonly, "kwarg": kwarg, "style": style,
-            "documented": list(documented), "doc_kwarg": doc_kwarg, "doc_types": doc_types, "annotate": annotate,
-            "conflict": conflict, "summary": "Summary of the thing %s" % draw(st.sampled_from(domain.WORDS))}
+    extra = {}
+    if knob == "kwarg_other_name":
+        # a var-keyword parameter that is not called kwargs, documented the usual way: `**options` in Google / numpydoc
+        kwarg, doc_kwarg = draw(st.sampled_from(("options", "extra"))), True
+        documented = [p["name"] for p in allp]
+        extra["kwarg_stars"] = style != "rest"
+        inmemory = False
+    if knob == "doc_states_default":
+        # the docstring states the defaults the signature has ('Defaults to 5'), for every documented parameter that has one
+        documented = [p["name"] for p in allp]
+        conflict = None
+        have = [p["name"] for p in allp if p["default"] is not None]
+        # ... or only for some of them: the first one always, each later one with probability 1/2
+        extra["state_defaults"] = [n_ for i_, n_ in enumerate(have) if i_ == 0 or draw(st.booleans())] or True
+    return dict({"inmemory": inmemory, "kind": kind, "first": first, "args": args, "kwonly": kwonly, "kwarg": kwarg, "style": style,
+                 "documented": list(documented), "doc_kwarg": doc_kwarg, "doc_types": doc_types, "annotate": annotate,
+                 "conflict": conflict, "summary": "Summary of the thing %s" % draw(st.sampled_from(domain.WORDS))}, **extra)
 
 
 def strategy(mode, knob=None):
@@ -159,9 +174,15 @@ def doc_type(case, p):
 
 def render_doc(case, indent):
     by = {p["name"]: p for p in case["args"] + case["kwonly"]}
-    entries = [(n, by[n]["prose"], doc_type(case, by[n]) if case["doc_types"] else None) for n in case["documented"]]
+    def said(p):
+        sd = case.get("state_defaults")
+        if sd and (sd is True or p["name"] in sd) and p["default"] is not None and p["default"] != "stdout":
+            return "%s. Defaults to %s" % (p["prose"], p["default"].replace("'", '"'))
+        return p["prose"]
+
+    entries = [(n, said(by[n]), doc_type(case, by[n]) if case["doc_types"] else None) for n in case["documented"]]
     if case["kwarg"] and case["doc_kwarg"]:
-        entries.append((case["kwarg"], "extra keyword arguments", "dict" if case["doc_types"] else None))
+        entries.append((("**" if case.get("kwarg_stars") else "") + case["kwarg"], "extra keyword arguments", "dict" if case["doc_types"] else None))
     lines = [case["summary"], ""]
     if case["style"] == "rest":
         for n, prose, typ in entries:
@@ -231,8 +252,13 @@ def python_view(case, src):
         if prm.kind is inspect.Parameter.VAR_KEYWORD:
             if documented:
                 q["doc"] = "extra keyword arguments"
-            q["typ"] = "Optional[dict]"
-            q["default"] = None
+            if name.endswith("kwargs") or case.get("kwarg_stars"):
+                q["typ"] = "Optional[dict]"  # doctrans' convention for a parameter it can recognise as var-keyword
+                q["default"] = None
+            else:
+                q["_varkw"] = True  # a None marker as default is accepted (functions get one, classes merged with __init__ do not)
+                if documented and case["doc_types"]:
+                    q["typ"] = "dict"  # `:param options:` in ReST looks like any other parameter: the documented type
             params.append(q)
             continue
         if documented:
@@ -287,13 +313,16 @@ def _run_inmemory(case, src, expected, tags, nontrivial):
         shutil.rmtree(d, ignore_errors=True)
     per = {p["name"]: ({"undocumented"} if "doc" not in p else set()) | ({"untyped"} if "typ" not in p else set())
            | ({"has_default"} if "default" in p else set()) | ({"kwarg"} if p["name"].endswith("kwargs") else set()) for p in expected["params"]}
-    discs = compare_ir(expected, got, Policy(returns=False), per)
+    discs = compare_ir(expected, got, Policy(returns=False, absent_default_ok=_absent_ok), per)
     return CaseResult(discs, tags, nontrivial, "in-memory %s: %s" % (case["kind"], "ok" if not discs else discs[0].aspect))
 
 
 def _absent_ok(exp, got):
-    # a parameter without default has none in Python's view; doctrans may not invent one
-    return False
+    # a parameter without default has none in Python's view; doctrans may not invent one - except the None marker it
+    # gives a var-keyword parameter ("nothing to pass")
+    from ..oracle import NONE_ALIASES
+
+    return bool(exp.get("_varkw")) and (got is None or (isinstance(got, str) and got in NONE_ALIASES))
 
 
 def run_case(case):
@@ -312,6 +341,10 @@ def run_case(case):
         tags.add("no_param_documented")
     if ndoc >= 2 and case["documented"] != [n for n in names if n in case["documented"]]:
         tags.add("out_of_order")
+    if case.get("state_defaults"):
+        tags.add("doc_states_default")
+    if case["kwarg"] and not case["kwarg"].endswith("kwargs"):
+        tags.add("kwarg_other_name")
     if case["kwarg"]:
         tags.add("has_kwarg")
         if not case["doc_kwarg"]:
@@ -371,7 +404,7 @@ def run_case(case):
         if p["name"].endswith("kwargs"):
             t.add("kwarg")
         per[p["name"]] = t
-    discs = compare_ir(expected, got, Policy(returns=False), per)
+    discs = compare_ir(expected, got, Policy(returns=False, absent_default_ok=_absent_ok), per)
     n_got = list((got.get("params") or {}))
     if len(n_got) != len(set(n_got)):
         discs.append(Disc("names:duplicate", "", repr(n_got)))
